@@ -509,7 +509,8 @@ def run(prop, res, tier, seed):
         p_refs.run_expected_groups(res, "C05", [p_refs.record_workspace(grng) for _ in range(6 if tier == "quick" else 60)] +
                                    [p_refs.deep_module_workspace(grng) for _ in range(8 if tier == "quick" else 80)] +
                                    [p_refs.variant_label_workspace(grng) for _ in range(4 if tier == "quick" else 40)] +
-                                   [p_refs.accessor_clash_workspace(grng) for _ in range(3 if tier == "quick" else 30)])
+                                   [p_refs.accessor_clash_workspace(grng) for _ in range(3 if tier == "quick" else 30)] +
+                                   [p_refs.namespace_clash_workspace(grng) for _ in range(4 if tier == "quick" else 30)])
     run_c05(res, tier, seed, want_c18=(prop == "C18"))
     if prop == "C18":
         run_dot_completion(res, tier, seed)
